@@ -97,6 +97,22 @@ def run(ctx):
     for f, what in [(mc[0], "move constructor")] + [(a, "move assignment" if a.params[0]["t"]["s"].endswith("&&") else "copy assignment") for a in asg]:
         uses = any(fb.resolve_call(c) is sw for c in f.calls())
         how = "%s is implemented by swap(Packet&, Packet&)" % what
+        if not uses and what == "move constructor":
+            # member-wise move: every member initialised from the same member of the source through std::move / std::exchange
+            took = set()
+            for i in f.raw.get("inits", []) or []:
+                if not (i.get("field") and i.get("written") and isinstance(i.get("e"), dict)):
+                    continue
+                for x in walk(i["e"]):
+                    if x.get("k") == "call" and callee_name(x) in ("std::exchange", "std::move") and x.get("args"):
+                        if member_of_param(x["args"][0], f.params[0]["decl"]) == i["field"]:
+                            took.add(i["field"])
+                    elif member_of_param(x, f.params[0]["decl"]) == i["field"] and x.get("k") == "member" and \
+                            (x.get("t") or {}).get("k") in ("int", "enum", "bool", "float"):
+                        took.add(i["field"])  # a scalar is copied
+            if set(fields) <= took:
+                uses = True
+                how = "move constructor takes every member from the same member of the source (std::move / std::exchange)"
         if not uses and what == "copy assignment":
             # *this = Packet(other): a temporary built by the copy constructor, taken over by the move assignment (which swaps)
             mv = [a2 for a2 in asg if a2.params[0]["t"]["s"].endswith("&&")]
